@@ -3,7 +3,7 @@
 # (suite passes with the patch; demo fails with it and passes without it). The demo must be a single file for embedded-cli/tests/.
 ID="$1"; shift
 EXTRA="$@"
-WT=/tmp/wt-$ID; OUT=/tmp/seed-out/$ID
+WT=${WTBASE:-/tmp/wt}-$ID; OUT=${OUTBASE:-/tmp/seed-out}/$ID
 DEMO=$(ls $OUT/demo/*.rs 2>/dev/null | head -1)
 [ -z "$DEMO" ] && { echo "no demo .rs"; exit 2; }
 NAME=$(basename $DEMO .rs)
